@@ -31,12 +31,13 @@ if [ -n "$DEMO" ]; then
   RACE=""; grep -qi race "$SEED/meta.json" 2>/dev/null && RACE="-race"
   NAMES=$(grep -o '^func Test[A-Za-z0-9_]*' "$DEMO" | sed 's/func //' | paste -sd'|')
   demo_with=pass; go test $RACE -vet=off -count=1 -timeout 300s -run "^($NAMES)\$" $TARGET >"$WT/.demo_with.out" 2>&1 || demo_with=fail
-  git stash -q; 
+  rm -f "$TARGET/zz_seed_demo_test.go"
+  git apply -R "$SEED/patch.diff"
   cp "$DEMO" "$TARGET/zz_seed_demo_test.go"
   demo_without=pass; go test $RACE -vet=off -count=1 -timeout 300s -run "^($NAMES)\$" $TARGET >"$WT/.demo_without.out" 2>&1 || demo_without=fail
   rm -f "$TARGET/zz_seed_demo_test.go"
-  git stash pop -q
-  rm -f "$TARGET/zz_seed_demo_test.go"
+  git apply "$SEED/patch.diff"
+  git diff --quiet && { echo '{"error":"patch lost after demo"}'; exit 2; }
 fi
 cd /verif
 out=$(VERIF_REPO="$WT" ./run "$ID" quick 2>&1); rc=$?
